@@ -1323,8 +1323,23 @@ def observers_convert_to_the_requested_unit(ctx, rule, classes=('Container', 'Pl
                         if v.lineno < x.lineno:
                             out.extend(raw_reads(v, depth + 1))
             return out
+        def storage_unit_branch(r):
+            # `if unit == config.volume_storage_unit: return self.volume` - the stored field *is* in the requested unit there
+            p = getattr(r, 'parent', None)
+            prev = r
+            while p is not None and p is not fi.node:
+                if isinstance(p, ast.If) and prev in p.body and isinstance(p.test, ast.Compare) and len(p.test.ops) == 1 and \
+                        isinstance(p.test.ops[0], ast.Eq):
+                    sides = [p.test.left, p.test.comparators[0]]
+                    if any(isinstance(x, ast.Name) and x.id in unit_names for x in sides) and \
+                            any(isinstance(x, ast.Attribute) and x.attr.endswith('storage_unit') for x in sides):
+                        return True
+                prev, p = p, getattr(p, 'parent', None)
+            return False
         rets = [r for r in ast.walk(fi.node) if isinstance(r, ast.Return) and r.value is not None]
         for r in rets:
+            if storage_unit_branch(r):
+                continue
             for x in raw_reads(r.value):
                 # a test of the field (`if self.volume == 0`) is no part of the value; ast.walk over the value does not reach tests
                 bad.append((r, x))
